@@ -139,6 +139,10 @@ def rule_label(chk, rid, runs):
             elif not seeds_anywhere(it):
                 cls = "pushed" if w1 or w0 else None
             writers = w0 if cls == "sweep" else (w1 or w0 if cls == "pushed" else [])
+            if cls == "pushed" and not w1 and run_.numcase:
+                # a boundary cell in which no reversal-time write is reachable: the read of such a checkpoint is not
+                # reachable either (there is nothing to read); absence of writers is not a contradiction
+                continue
             if cls is None or not writers:
                 chk.decide(rid, cons, None, f"cannot classify the checkpoint read by {rec.yid}" + shared.cfgs(run_),
                            rel=run_.rel, node=rec.node)
@@ -168,6 +172,8 @@ def rule_passes(chk, rid, runs):
                 continue
             st, yc, x = rec.state, ycons(run_, rec), rec.arg(0)
             seeds = [s for s in st.symbols() if s.startswith("seed(")]
+            if not wrote_after_ef and run_.numcase:
+                continue        # boundary cell without reachable reversal-time writes: the Move is not reachable either
             if not wrote_after_ef:
                 chk.decide(rid, yc, False, "Move inside a repeatable adjoint pass although nothing is written after "
                            "EndForward: the data belongs to the forward sweep and the next pass needs it" + shared.cfgs(run_),
